@@ -62,3 +62,20 @@ Theorem C18_old_write_html_refuted :
   o = Some OtherErr /\ file s' [s2l "out"; s2l "rep.html"] <> file demo_fs [s2l "out"; s2l "rep.html"].
 Proof. vm_compute. split; [reflexivity|discriminate]. Qed.
 Print Assumptions C18_old_write_html_refuted.
+
+(* The hypotheses survive: whatever an export did (raised or returned), the state it leaves satisfies wf again, so
+   C18_all_or_nothing applies to a retry after a failure and to a re-export over the previous output - for every
+   scenario and every well-formed starting state. *)
+Theorem C18_wf_preserved : forall c s s' o,
+  wf c s -> sc_fixed c = true -> export c s = (s', o) -> wf c s'.
+Proof. exact export_wf_preserved. Qed.
+Print Assumptions C18_wf_preserved.
+
+Theorem C18_again : forall c s s1 o1,
+  wf c s -> sc_fixed c = true -> export c s = (s1, o1) ->
+    (fails c -> exists s' e, export c s1 = (s', Some e) /\ (forall q, file s' q = file s1 q) /\ tmp_clean c s') /\
+    (~ fails c -> exists s', export c s1 = (s', None) /\ (forall q, file s' q = done_all c s1 q) /\ tmp_clean c s').
+Proof.
+  intros c s s1 o1 W F E. apply export_all_or_nothing; [exact (export_wf_preserved c s s1 o1 W F E)|exact F].
+Qed.
+Print Assumptions C18_again.
